@@ -282,6 +282,9 @@ class Parser:
         root.add_child(node)
 
     def _parse_subtree(self, root: ASTNode) -> None:
+        # the enclosing split levels are kept on an explicit stack: splits
+        # nested n levels deep must not recurse n times
+        stack: list[tuple[ASTNode, ASTNode]] = []
         flag = True  # flag to check if the brachet_left can be consumed
         current = root
         while (token := self.next_token) is not None:
@@ -291,13 +294,19 @@ class Parser:
                     if flag:
                         flag = False
                     else:
-                        self._parse_subtree(current)
-                        self._assert_and_cunsume(TokenType.BRACKET_RIGHT)
+                        stack.append((root, current))
+                        root = current
                         flag = True
                         continue
 
                 case TokenType.BRACKET_RIGHT:
-                    break
+                    if len(stack) == 0:
+                        break
+
+                    root, current = stack.pop()
+                    self._assert_and_cunsume(TokenType.BRACKET_RIGHT)
+                    flag = True
+                    continue
 
                 case TokenType.FLOAT:
                     current = self._parse_node(current)
@@ -314,8 +323,8 @@ class Parser:
 
                 case TokenType.OR:
                     if not flag:  # the split starts with an empty alternative
-                        self._parse_subtree(current)
-                        self._assert_and_cunsume(TokenType.BRACKET_RIGHT)
+                        stack.append((root, current))
+                        root = current
                         flag = True
                         continue
 
@@ -333,6 +342,9 @@ class Parser:
                     raise TokenTypeError(token, excepted)
 
             current.tokens.append(token)
+
+        if len(stack) != 0:  # the document ended inside a split
+            self._assert_and_cunsume(TokenType.BRACKET_RIGHT)
 
     def _parse_node(self, root: ASTNode) -> ASTNode:
         # FLOAT FLOAT FLOAT FLOAT )
